@@ -9,12 +9,16 @@ CONSTANTS
   BugSharedChannel = FALSE
   BugFallbackBeforeLoop = FALSE
   BugStaleGameOver = FALSE
+  BugGameOverLatch = FALSE
+  BugGivesUpOnGarbage = FALSE
 INVARIANT TypeOk
 INVARIANT OneAnswerPerGo
 INVARIANT AnswerFitsPosition
 INVARIANT ChannelFresh
 INVARIANT NoEarlyAnswer
 INVARIANT RecordFresh
+INVARIANT NullMoveOnlyWhenOver
+INVARIANT DiesOnlyWhenTold
 INVARIANT AtMostOneStaleLinePerGo
 PROPERTY GoAnswered
 PROPERTY Terminates
